@@ -245,6 +245,9 @@ func (e *Exec) cev(st *State, x ast.Expr, env *cenv) Val {
 		if g, ok := st.ghosts[x.Name]; ok {
 			return g
 		}
+		if g, ok := e.trackedGhost(st, x.Name); ok {
+			return g
+		}
 		e.fail(x.Pos(), "contract: unknown name %q", x.Name)
 	case *ast.UnaryExpr:
 		v := e.cev(st, x.X, env)
@@ -486,7 +489,7 @@ func (e *Exec) ccall(st *State, x *ast.CallExpr, env *cenv) Val {
 					}
 					args = append(args, a)
 				}
-				return e.callFunc(st, o, nil, args, nil)
+				return e.callFunc(st, o, nil, e.packVariadic(st, sig, args), nil)
 			case *types.TypeName:
 				return e.conversion(st, arg(0), o.Type(), x.Pos())
 			}
@@ -531,7 +534,7 @@ func (e *Exec) ccall(st *State, x *ast.CallExpr, env *cenv) Val {
 							}
 							args = append(args, a)
 						}
-						return e.callFunc(st, fn, nil, args, nil)
+						return e.callFunc(st, fn, nil, e.packVariadic(st, sig, args), nil)
 					}
 				}
 			}
@@ -563,7 +566,7 @@ func (e *Exec) ccall(st *State, x *ast.CallExpr, env *cenv) Val {
 			}
 			args = append(args, a)
 		}
-		return e.callFunc(st, fn, &recv, args, nil)
+		return e.callFunc(st, fn, &recv, e.packVariadic(st, sig, args), nil)
 	}
 	e.fail(x.Pos(), "contract: unsupported call")
 	return Val{}
